@@ -112,6 +112,7 @@ class Program:
         self.enums.setdefault("Entry", ["Occupied", "Vacant"])
         self.enums.setdefault("Cow", ["Borrowed", "Owned"])
         self.enums.setdefault("ControlFlow", ["Continue", "Break"])
+        self.enums.setdefault("Poll", ["Ready", "Pending"])
 
     def add(self, b):
         if b.name in self.bodies and b.kind == "fn":
